@@ -3,7 +3,7 @@ CONSTANT ALPHA = 3
 CONSTANT GEN = 2
 CONSTANT DropKind = "none"
 CONSTANT DropIdx = 0
-CONSTANT Cases <- Cases5
+CONSTANT Cases <- Cases5H
 CONSTANT Sel = {}
 INIT InitRows
 NEXT NextRows
